@@ -87,6 +87,8 @@ def operation_plan(draw, dialects=("3.0", "3.0", "3.1", "2.0"), max_params=4, bo
             s = _maybe_ref(draw, s, plan["schemas"], dialect)
             plan["bodies"].append({"media_type": mt, "schema": s, "witness": w})
         plan["body_required"] = draw(st.sampled_from([True, True, False]))
+    plan["sibling_overrides"] = draw(st.booleans())
+    plan["access"] = draw(st.sampled_from(["lookup", "iterate"]))
     if draw(st.integers(0, 3)) == 0:
         kind = draw(st.sampled_from(["apiKey-header", "apiKey-query", "apiKey-cookie", "basic", "bearer"] if dialect != "2.0" else ["apiKey-header", "apiKey-query", "basic"]))
         plan["security"] = {"kind": kind, "name": {"apiKey-header": "X-Api-Key", "apiKey-query": "api_key", "apiKey-cookie": "token"}.get(kind, "Authorization")}
@@ -140,6 +142,14 @@ def build_doc(plan) -> dict:
         op["parameters"] = op_params
     if path_params:
         path_item["parameters"] = path_params
+    if plan.get("sibling_overrides") and path_params:
+        # an earlier operation of the same path item re-declares every path-level parameter (with another schema)
+        overrides = []
+        for p in plan["params"]:
+            if p.get("level") == "path":
+                q = dict(p, schema={"type": "string", "enum": ["sibling"]} if p["in"] != "path" or True else p["schema"])
+                overrides.append(render_parameter(q, dialect))
+        path_item["get"] = {"parameters": overrides, "responses": {"200": {"description": "ok"}}}
     path_item[plan["method"]] = op
     sec = plan.get("security")
     if dialect == "2.0":
